@@ -13,9 +13,9 @@ import re
 
 PROP = 'C01'
 LEVEL = 'exploration'
-RULE = ('(a) every sequence of 1..k lines (k=3 quick, 4 thorough) over 25 line-class representatives x the input '
+RULE = ('(a) every sequence of 1..k lines (k=3 quick, 4 thorough) over 29 line-class representatives x the input '
         'forms {all terminated, last line un-terminated, no line terminated}; (b) random documents of 1..12 lines over '
-        'a 22-symbol hostile alphabet (CR, VT, FF, U+0085, NBSP, NUL, DEL, non-ASCII, U+2028), as str and as UTF-8 bytes '
+        'a 30-symbol hostile alphabet (CR, VT, FF, U+0085, NBSP, NUL, DEL, non-ASCII, U+2028), as str and as UTF-8 bytes '
         'lines, from a list, a tuple, a one-shot iterator, a generator, bytes-subclass lines, an in-memory stream and a real file (text '
         'streams splitting at LF only); (c) every deb822-shaped fixture of the repository, whole and '
         'with lines shuffled/dropped/duplicated.  Every result is dumped a SECOND time after read-only traffic over every field (get, in, '
@@ -49,9 +49,11 @@ LEVEL_NOTE = 'Trusted: CPython, the harness tee of the input. The class-represen
 TECHNIQUE = 'runtime monitoring: boundary oracle (input text tee) on every parse/tokenize execution; bounded-exhaustive line-class adjacency driver + seeded random documents'
 
 BODIES = ['', ' ', '\t', '\x0b', '\xa0', ' \r', '# c', '#', ' cont', '\tcont', ' # not-comment', 'A: b', 'A:', 'A:  ',
-          'A : b', 'a:b:c', '-x: y', 'garbage', ' .', 'A: \xe9 ', '\xe9: x', 'A: b\r', 'A:\x0b', 'B: c ', '\ufeffA: b']
+          'A : b', 'a:b:c', '-x: y', 'garbage', ' .', 'A: \xe9 ', '\xe9: x', 'A: b\r', 'A:\x0b', 'B: c ', '\ufeffA: b',
+          # text that a message template would choke on (str.format / % formatting / re.sub replacement)
+          ' ${misc:Depends} {0} {', 'A: %s %(x)s 100% \\1 }', '{x}: %d', '# {no} %']
 ALPHA = ['a', 'B', ':', '#', ' ', '\t', '\r', '\x0b', '\x0c', '\x85', ' ', '\xa0', '-', '\xe9', '\u6f22', ',', '\x00',
-         '\x7f', '.', '~', '\u2028', '\x1c', '\ufeff', '\u200b', '\U0001f600']
+         '\x7f', '.', '~', '\u2028', '\x1c', '\ufeff', '\u200b', '\U0001f600', '{', '}', '%', '\\', '$']
 _WS = re.compile(r'^\s+$')
 
 
